@@ -718,7 +718,7 @@ func genOps(r *Rng, tier string, n int, emit func(string)) {
 			hostPct = Pick(cr, []int{60, 80, 100})
 		}
 		dump := tier == "thorough" && cr.Chance(30)
-		kind := cr.Intn(11)
+		kind := cr.Intn(13)
 		addH := func(m, p string) {
 			hid++
 			ops = append(ops, fmt.Sprintf("H,%s,%s,%d,%d", m, hx(p), Pick(cr, []int{0, 0, 0, 1, 2}), hid))
@@ -738,6 +738,48 @@ func genOps(r *Rng, tier string, n int, emit func(string)) {
 			for _, pr := range probes {
 				famProbes = append(famProbes, "L,"+methods[0]+",_,"+hx(pr))
 			}
+		case kind >= 11:
+			// prefix family: a few patterns closed under common prefixes, registered in random order and then deleted /
+			// re-registered one by one - every deletion meets a different shape (leaf with several children, single
+			// child to merge, parent / grand-parent to merge, host/path boundary)
+			base := genPattern(cr, hostPct)
+			if cr.Chance(50) {
+				base = strings.TrimSuffix(base, "/")
+			}
+			tails := []string{"", "x", "y", "xy", "xz", "x/z", "/", "/q", "/{p}", "/*{w}", "x{p}", "y/", "/q/r", "*{v}"}
+			var fam []string
+			for _, t := range tails {
+				if cr.Chance(55) {
+					fam = append(fam, base+t)
+				}
+			}
+			if len(fam) < 3 {
+				fam = append(fam, base, base+"x", base+"y")
+			}
+			m := methods[0]
+			for _, i := range cr.Perm(len(fam)) {
+				addH(m, fam[i])
+			}
+			for i, k := 0, 6+cr.Intn(14); i < k; i++ {
+				p := Pick(cr, fam)
+				switch x := cr.Intn(10); {
+				case x < 5:
+					ops = append(ops, "D,"+m+","+hx(p))
+				case x < 8:
+					addH(m, p)
+				default:
+					hid++
+					ops = append(ops, fmt.Sprintf("U,%s,%s,%d,%d", m, hx(p), Pick(cr, []int{0, 1, 2}), hid))
+				}
+				if dump {
+					ops = append(ops, "X")
+				}
+				ops = append(ops, genProbe(cr, fam, methods))
+				if cr.Chance(30) {
+					ops = append(ops, genReads(cr, fam, methods)...)
+				}
+			}
+			pats = fam
 		case kind < 5:
 			// route set, then probes
 			k := 1 + cr.Intn(12)
